@@ -130,6 +130,7 @@ void
 LeastSquares<RealType>::setEstimateSize(const size_t & estimateSize)
 {
   estimateSize_ = int(estimateSize);
+  J_.resize(J_.rows(), estimateSize_);
   Ac_ = Matrix::Identity(estimateSize_, estimateSize_);
   Bc_ = Vector::Zero(estimateSize_);
   JtJ_ = Matrix::Zero(estimateSize_, estimateSize_);
